@@ -686,6 +686,23 @@ def register(cat):
         k = c.obj(r)
         return {"operands": [r, c.fresh(rand_array(c.g, (2 * (sum(k.shape) + 1) + 1,)))]}
 
+    def gen_from_vector_long(c, r):
+        # a long data vector (hundreds of thousands of entries) that is a few entries too long
+        k = c.obj(r)
+        lam = c.g.random() < 0.5
+        stride = sum(shp(k)) + (1 if lam else 0)
+        n = stride * (c.g.randint(200000, 400000) // stride) + c.g.randint(1, min(3, stride - 1))
+        return {"operands": [r], "n": n, "lam": lam}
+
+    bad(
+        "K.from_vector_long_vector",
+        "K",
+        gen_from_vector_long,
+        lambda eng, ops, st: ttb.ktensor.from_vector(np.full(st["n"], 0.5), tuple(ops[0].shape), st["lam"]),
+        lambda ops, st: st["n"] % (sum(shp(ops[0])) + (1 if st["lam"] else 0)) != 0,
+        weight=0.3,
+    )
+
     bad("K.from_vector_length", "K", gen_from_vector, lambda eng, ops, st: ttb.ktensor.from_vector(ops[1], tuple(ops[0].shape), True), lambda ops, st: (ops[1].shape[0] - 0) % (sum(shp(ops[0])) + 1) != 0)
 
     # -------------------------------------------------------------------- module level
